@@ -13,6 +13,7 @@ NOT_DECIDED = "boundary timing of the duration check as numbers, tokio's behavio
 DECIDED += "; shared C04-R2: crash and bounce throw the old runtime and its leftover tasks away (finished software is never polled again)"
 DECIDED += '; R5 the loop of Sim::run is left only on what Sim::step returned'
 DECIDED += '; R2 also: the completion flag of step starts as the constant true; R5 also: run never asks itself whether software is running'
+DECIDED += '; R1 also: the Result of a host tick is read on every path of the iteration'
 ASSUMPTIONS = ["tokio unhandled_panic(ShutdownRuntime) makes block_on panic in the caller"]
 
 STEP = "turmoil::sim::Sim::step"
